@@ -74,6 +74,9 @@ def pprodsLoop (n pm : Nat) : Nat → Nat → List Nat → List Nat
     let pk' := if pk + pm ≥ n then pk + pm - n else pk + pm
     pprodsLoop n pm c pk' (pk' :: acc)
 
+/-- `pprod_modn = n - pprod % n`, replaced by zero when it equals `n` -/
+def pprodModn (n pprod : Nat) : Nat := if n - pprod % n = n then 0 else n - pprod % n
+
 /-- `MultiZmodP::new(zn, logsize)` without the roots of unity -/
 def new (n logsize : Nat) : Option Mzp :=
   let nbits := bitlen n
@@ -94,7 +97,7 @@ def new (n logsize : Nat) : Option Mzp :=
           let pprod := primes.foldl (· * ·) 1
           if bitlen pprod < 2 * nbits + logsize then none          -- assert!(pprod.bits() >= ..)
           else
-            let pm := if n - pprod % n = n then 0 else n - pprod % n
+            let pm := pprodModn n pprod
             some {
               n := n, kw := (nbits + 63) / 64, w := w, k := logsize, primes := primes,
               rpowers := rpowers, crtPinv := crtPinv, crtP := crtP, pprod := pprod,
@@ -102,28 +105,33 @@ def new (n logsize : Nat) : Option Mzp :=
               crtPModn := crtP.map (· % n),
               pprodsModn := 0 :: pm :: pprodsLoop n pm (w - 2) pm [] }
 
+/-- `zi += x[j] as u128 * ri[j + 1] as u128` for `j = j' + 1` (overflow checked) -/
+def fromMintStep (ri x : List Nat) (z j' : Nat) : Option Nat :=
+  match ri[j' + 2]? with
+  | none => none
+  | some rij =>
+    let t := z + x.getD (j' + 1) 0 * rij
+    if t ≥ 2 ^ 128 then none else some t
+
+/-- residue `i` of `from_mint` -/
+def fromMint1 (m : Mzp) (x : List Nat) (i : Nat) : Option Nat :=
+  match m.primes[i]?, m.rpowers[i]? with
+  | some pi, some ri =>
+    match ri[1]?, ri[0]? with
+    | some r1, some r =>
+      match (List.range (m.kw - 1)).foldlM (fromMintStep ri x) (x.getD 0 0 * r1) with
+      | none => none
+      | some zi =>
+        let z2 := zi / W * r + zi % W
+        if z2 ≥ 2 ^ 128 then none else mgRedc pi (pi - 2) z2
+    | _, _ => none
+  | _, _ => none
+
 /-- `from_mint(z, x)`: the residues (Montgomery form modulo each prime) of the 8-word value `x` -/
 def fromMint (m : Mzp) (x : List Nat) : Option (List Nat) :=
   if m.kw > 8 then none                                            -- assert!(sz <= 8)
   else if m.kw < x.length ∧ x.getD m.kw 0 ≠ 0 then none            -- debug_assert!
-  else
-    (List.range m.w).mapM fun i =>
-      match m.primes[i]?, m.rpowers[i]? with
-      | some pi, some ri =>
-        match ri[1]?, ri[0]? with
-        | some r1, some r =>
-          match (List.range (m.kw - 1)).foldlM (fun z j' =>
-              match ri[j' + 2]? with
-              | none => none
-              | some rij =>
-                let t := z + x.getD (j' + 1) 0 * rij
-                if t ≥ 2 ^ 128 then none else some t) (x.getD 0 0 * r1) with
-          | none => none
-          | some zi =>
-            let z2 := zi / W * r + zi % W
-            if z2 ≥ 2 ^ 128 then none else mgRedc pi (pi - 2) z2
-        | _, _ => none
-      | _, _ => none
+  else (List.range m.w).mapM (fromMint1 m x)
 
 /-- one term of the 128-bit sum `top += xs[i] as u128 * (crti + 1) as u128` (overflow checked) -/
 def sumTopStep (xs crtP : List Nat) (f : Nat → Option Nat) (top i : Nat) : Option Nat :=
